@@ -30,7 +30,7 @@ def unit_axis(h, name='u'):
     if h.sym:
         h.unit(u)
         return u
-    return u / math.sqrt(float(nsq(u)))
+    return unitize(u)
 
 
 def V_ref(h, u, th):
